@@ -1100,7 +1100,10 @@ def lines_stream(rep, tier, rnd):
                 n_dev += mult
                 sym, what, f15 = LN.symptom(d, t)
                 rep.stat("lines", "deviation:%s:%s%s" % (d["profile"], sym, ":F15-shaped" if f15 else ""), mult)
-                if f15 and p.get("racy", {}).get(f15):
+                if f15 and f15 in p.get("racy_internal", {}):
+                    # the racy validator belongs to one of typedpy's own Structure classes (built internally by the operation)
+                    key = "C20/%s/_name-reread/internal:%s" % (p["racy"][f15], p["racy_internal"][f15])
+                elif f15 and p.get("racy", {}).get(f15):
                     key = "C20/%s/_name-reread" % p["racy"][f15]
                 else:
                     key = "C20/lines/%s/%s" % (LN.site_of(d), sym)
